@@ -300,7 +300,8 @@ class Interp:
             elif head == "defun":
                 parts = to_py(f)
                 name = parts[1].name
-                if name in wanted_funs:
+                if name in wanted_funs or name.startswith("chokan-"):
+                    # helpers a wanted function may call are kept too (only evaluated when called)
                     body = parts[3:]
                     if body and isinstance(body[0], str) and len(body) > 1:
                         body = body[1:]
@@ -443,6 +444,101 @@ class Interp:
             e.v[a[i].name] = r
         return r
 
+    def sf_when(self, a, env):
+        if truthy(self.eval(a[0], env)):
+            return self.progn(a[1:], env)
+        return NIL
+
+    def sf_unless(self, a, env):
+        if not truthy(self.eval(a[0], env)):
+            return self.progn(a[1:], env)
+        return NIL
+
+    def sf_cond(self, a, env):
+        for clause in a:
+            parts = to_py(clause)
+            v = self.eval(parts[0], env)
+            if truthy(v):
+                return self.progn(parts[1:], env) if len(parts) > 1 else v
+        return NIL
+
+    def sf_prog1(self, a, env):
+        r = self.eval(a[0], env)
+        self.progn(a[1:], env)
+        return r
+
+    def _place(self, sym, env):
+        if not isinstance(sym, Sym):
+            raise Unsupported("generalised place %r" % (sym,))
+        e = env.find(sym.name)
+        if e is None:
+            raise LispError("void variable %s" % sym.name)
+        return e
+
+    def sf_push(self, a, env):
+        v = self.eval(a[0], env)
+        e = self._place(a[1], env)
+        e.v[a[1].name] = Cons(v, e.v[a[1].name])
+        return e.v[a[1].name]
+
+    def sf_pop(self, a, env):
+        e = self._place(a[0], env)
+        cur = e.v[a[0].name]
+        if cur is NIL:
+            return NIL
+        if not isinstance(cur, Cons):
+            raise LispError("wrong-type-argument listp")
+        e.v[a[0].name] = cur.cdr
+        return cur.car
+
+    def sf_setf(self, a, env):
+        r = NIL
+        for i in range(0, len(a), 2):
+            if not isinstance(a[i], Sym):
+                raise Unsupported("setf of a generalised place")
+            r = self.sf_setq([a[i], a[i + 1]], env)
+        return r
+
+    def sf_cl_incf(self, a, env):
+        e = self._place(a[0], env)
+        d = self.eval(a[1], env) if len(a) > 1 else 1
+        e.v[a[0].name] = e.v[a[0].name] + d
+        return e.v[a[0].name]
+
+    sf_incf = sf_cl_incf
+
+    def sf_cl_decf(self, a, env):
+        e = self._place(a[0], env)
+        d = self.eval(a[1], env) if len(a) > 1 else 1
+        e.v[a[0].name] = e.v[a[0].name] - d
+        return e.v[a[0].name]
+
+    sf_decf = sf_cl_decf
+
+    def sf_dolist(self, a, env):
+        spec = to_py(a[0])
+        items = self.seq_items(self.eval(spec[1], env))
+        ne = Env(env)
+        for it in items:
+            ne.v[spec[0].name] = it
+            self.progn(a[1:], ne)
+        if len(spec) > 2:
+            ne.v[spec[0].name] = NIL
+            return self.eval(spec[2], ne)
+        return NIL
+
+    def sf_dotimes(self, a, env):
+        spec = to_py(a[0])
+        n = self.eval(spec[1], env)
+        ne = Env(env)
+        for i in range(n):
+            ne.v[spec[0].name] = i
+            self.progn(a[1:], ne)
+        if len(spec) > 2:
+            ne.v[spec[0].name] = n
+            return self.eval(spec[2], ne)
+        return NIL
+
     def sf_while(self, a, env):
         while truthy(self.eval(a[0], env)):
             self.progn(a[1:], env)
@@ -544,7 +640,7 @@ class Interp:
             ne = Env(self.globals)
             self.bind(params, v, ne)
             return self.progn(body, ne)
-        fn = getattr(self, "fn_" + name.replace("-", "_").replace("=", "eq").replace(">", "gt").replace("<", "lt").replace("+", "plus"), None)
+        fn = getattr(self, "fn_" + name.replace("-", "_").replace("=", "eq").replace(">", "gt").replace("<", "lt").replace("+", "plus").replace("*", "star"), None)
         if fn is None:
             raise Unsupported("function %s" % name)
         return fn(*v)
@@ -773,6 +869,128 @@ class Interp:
             if not isinstance(p, str):
                 raise LispError("mapconcat non-string")
         return sep.join(parts)
+
+    def fn_nreverse(self, l):
+        if isinstance(l, str):
+            return l[::-1]
+        return lst(list(reversed(self.seq_items(l))))
+
+    fn_reverse = fn_nreverse
+    fn_seq_reverse = fn_nreverse
+
+    def fn_apply(self, f, *args):
+        if not args:
+            raise LispError("apply without argument list")
+        vals = list(args[:-1]) + to_py(args[-1])
+        return self.apply(f, vals)
+
+    def fn_funcall(self, f, *args):
+        return self.apply(f, list(args))
+
+    def fn_append(self, *ls):
+        if not ls:
+            return NIL
+        out = []
+        for l in ls[:-1]:
+            out.extend(self.seq_items(l))
+        return lst(out, ls[-1])
+
+    def fn_mapcar(self, f, seq):
+        return lst([self.apply(f, [it]) for it in self.seq_items(seq)])
+
+    def fn_identity(self, a):
+        return a
+
+    def fn_stringeq(self, a, b):
+        a = a.name if isinstance(a, Sym) else a
+        b = b.name if isinstance(b, Sym) else b
+        if not isinstance(a, str) or not isinstance(b, str):
+            raise LispError("wrong-type-argument stringp")
+        return T if a == b else NIL
+
+    fn_string_equal = fn_stringeq
+
+    def fn_string_prefix_p(self, pre, s, ignore_case=NIL):
+        if ignore_case is not NIL:
+            return T if s.lower().startswith(pre.lower()) else NIL
+        return T if s.startswith(pre) else NIL
+
+    def fn_string_suffix_p(self, suf, s, ignore_case=NIL):
+        if ignore_case is not NIL:
+            return T if s.lower().endswith(suf.lower()) else NIL
+        return T if s.endswith(suf) else NIL
+
+    def fn_stringp(self, a):
+        return T if isinstance(a, str) else NIL
+
+    def fn_consp(self, a):
+        return T if isinstance(a, Cons) else NIL
+
+    def fn_listp(self, a):
+        return T if isinstance(a, Cons) or a is NIL else NIL
+
+    def fn_integerp(self, a):
+        return T if isinstance(a, int) else NIL
+
+    fn_natnump = lambda self, a: T if isinstance(a, int) and a >= 0 else NIL
+    fn_characterp = fn_integerp
+    fn_numberp = lambda self, a: T if isinstance(a, (int, float)) else NIL
+
+    def fn_zerop(self, a):
+        return T if a == 0 else NIL
+
+    def fn_mod(self, a, b):
+        if b == 0:
+            raise LispError("arith-error")
+        return a % b
+
+    def fn_star(self, *a):
+        r = 1
+        for x in a:
+            r *= x
+        return r
+
+    def fn_elt(self, s, i):
+        items = self.seq_items(s)
+        if not (0 <= i < len(items)):
+            raise LispError("args-out-of-range elt")
+        return items[i]
+
+    fn_seq_elt = fn_elt
+
+    def fn_seq_subseq(self, s, frm, to=NIL):
+        if isinstance(s, str):
+            return self.fn_substring(s, frm, to)
+        items = self.seq_items(s)
+        n = len(items)
+        to = n if to is NIL else to
+        if frm < 0:
+            frm += n
+        if to < 0:
+            to += n
+        if not (0 <= frm <= to <= n):
+            raise LispError("args-out-of-range seq-subseq")
+        return lst(items[frm:to])
+
+    def fn_seq_take(self, s, n):
+        n = max(0, n)
+        return s[:n] if isinstance(s, str) else lst(self.seq_items(s)[:n])
+
+    def fn_seq_drop(self, s, n):
+        n = max(0, n)
+        return s[n:] if isinstance(s, str) else lst(self.seq_items(s)[n:])
+
+    def fn_rassoc(self, v, al):
+        for it in to_py(al):
+            if isinstance(it, Cons) and l_equal(it.cdr, v):
+                return it
+        return NIL
+
+    def fn_string_join(self, strs, sep=NIL):
+        return ("" if sep is NIL else sep).join(to_py(strs))
+
+    def fn_number_to_string(self, n):
+        return str(n)
 
     def fn_list(self, *a):
         return lst(list(a))
